@@ -502,11 +502,73 @@ func init() {
 			if tier == "thorough" {
 				return 25 * time.Minute
 			}
-			return 100 * time.Second
+			return 240 * time.Second
 		},
 		Run:    c03Run,
 		Replay: c03Replay,
 	})
+}
+
+// c03LineForms: whole lines that stand for nothing - comments of every spelling (also empty
+// ones) and lines that hold only white space.  indent: the line takes the indentation of the
+// line it is put in front of.
+var c03LineForms = []struct {
+	text   string
+	indent bool
+}{
+	{"注：", true}, {"注12：", true}, {"注：说明", true}, {"注：「说明」", true}, {"注：“”", true},
+	{"// 说明", true}, {"//", true}, {"/* 说明 */", true}, {"/**/", true},
+	{"", false}, {"    ", false}, {"        ", false}, // (a TAB-only line in a space-indented file is a mixed-indentation error: not a form)
+}
+
+// c03LineInserts: the default rendering of prog with one such line put in front of every line
+// (and behind the last one) yields the same tree.
+func c03LineInserts(c *mc.Ctx, prog *zn.Program, part string) {
+	want := zn.Show(prog)
+	base := zn.Render(prog, nil)
+	if strings.Contains(base, "u\nv") {
+		return // a text with a line break of its own: a line put inside it would be part of the text
+	}
+	lines := strings.Split(strings.TrimSuffix(base, "\n"), "\n")
+	var n int64
+	for b := 0; b <= len(lines); b++ {
+		ind := ""
+		if b < len(lines) {
+			ind = lines[b][:len(lines[b])-len(strings.TrimLeft(lines[b], " "))]
+		}
+		for _, lf := range c03LineForms {
+			ins := lf.text
+			if lf.indent {
+				ins = ind + ins
+			}
+			all := append(append(append([]string{}, lines[:b]...), ins), lines[b:]...)
+			src := strings.Join(all, "\n") + "\n"
+			cs := func() json.RawMessage {
+				return mc.J(c03Case{Part: part, Source: src, Want: want, Devs: fmt.Sprintf("line %q put in front of line %d", ins, b+1)})
+			}
+			c.Case(c03CurIdx, cs)
+			n++
+			tree, err, pan := c03Parse(src)
+			if pan != "" {
+				c.Fail(mc.Failure{Kind: "panic", Case: cs(), Observed: pan})
+				continue
+			}
+			if err != nil {
+				c.Fail(mc.Failure{Bucket: "reject:inserted-line", Kind: "mismatch", Case: cs(), Expected: "tree " + want, Observed: "syntax error: " + err.Error()})
+				continue
+			}
+			got, missing := zn.Dump(tree)
+			if len(missing) > 0 {
+				c.Fail(mc.Failure{Bucket: "incomplete:" + missing[0], Kind: "mismatch", Case: cs(), Expected: "complete tree", Observed: fmt.Sprintf("missing parts %v", missing)})
+				continue
+			}
+			if sh := zn.Show(got); sh != want {
+				c.Fail(mc.Failure{Bucket: "tree:inserted-line", Kind: "mismatch", Case: cs(), Expected: want, Observed: sh})
+			}
+		}
+	}
+	c.EvalN(n, n)
+	c.Stat("parses_"+part, n)
 }
 
 func c03Run(c *mc.Ctx) {
@@ -588,6 +650,25 @@ func c03Run(c *mc.Ctx) {
 		if next(func() json.RawMessage { return mc.J(c03Case{Part: "nested-branches", Source: zn.Render(pp, nil)}) }) {
 			c03Layouts(c, p, 1, "nested_branches")
 		}
+	}
+	// (f) a comment line (every spelling, also empty) or a white-space-only line in front of every
+	// line of every section program, every statement tree of <= 2 nodes and every nested chain
+	{
+		var progs []*zn.Program
+		progs = append(progs, c03Sections()...)
+		for m := 1; m <= 2; m++ {
+			for _, b := range c03Bodies(m, 2) {
+				progs = append(progs, &zn.Program{Body: b})
+			}
+		}
+		progs = append(progs, c03NestedBranches()...)
+		for _, p := range progs {
+			pp := p
+			if next(func() json.RawMessage { return mc.J(c03Case{Part: "inserted-lines", Source: zn.Render(pp, nil)}) }) {
+				c03LineInserts(c, p, "inserted_lines")
+			}
+		}
+		c.Bound("inserted_lines", fmt.Sprintf("complete: %d line forms x every line boundary of %d programs", len(c03LineForms), len(progs)))
 	}
 	// (d) deviation bound 2 on a fixed subset (quick: sections with one import)
 	if c.Tier != "thorough" {
